@@ -249,6 +249,28 @@ class C02(Prop):
                 idxs = [rng.below(n) for _ in range(m)]
                 yield mk_many_case(data, idxs, lay, mode)
 
+        # deep recursions: arrays of 66..160 elements dominated by one repeated value (each partition around it
+        # peels off a single element) or already sorted with first/last-position pivots, on every layout and in
+        # particular on reversed contiguous views
+        for rep in range(40 if tier == "quick" else 600):
+            n = rng.range(66, 160)
+            if rep % 2:
+                common = rng.range(-3, 3)
+                data = [common] * n
+                for _ in range(rng.range(2, 9)):
+                    data[rng.below(n)] = common + rng.range(-4, 6)
+                mode = rng.choice([("R",), ("P", 0), ("P", 1), ("P", 2)])
+            else:
+                data = sorted(rng.range(-50, 50) for _ in range(n))
+                if rng.chance(1, 2):
+                    data.reverse()
+                mode = rng.choice([("P", 0), ("P", 1), ("R",)])
+            lay = [(-1, 0, 0), (-1, 1, 2), (1, 0, 0), (2, 0, 1), (-2, 1, 0)][rep % 5]
+            if rng.chance(1, 2):
+                yield mk_select_case(data, rng.choice([0, n - 1, n // 2, rng.below(n)]), lay, mode)
+            else:
+                yield mk_many_case(data, [rng.below(n) for _ in range(rng.range(1, 6))] + [n - 1], lay, mode)
+
     def corpus(self):
         return [mk_select_case([3, 1, 4, 1, 5, 9, 2, 6], 3, LAYS[0], ("S", [0, 0, 0])),
                 mk_many_case([3, 1, 4, 1, 5, 9, 2, 6], [4, 1, 1, 7], LAYS[1], ("P", 1)),
